@@ -106,6 +106,39 @@ def hand_cases():
     out.append(prog("errors_types",
                     "stage S(\n    in  int a,\n    in  string b,\n    in  int[] c,\n    in  map<int> d,\n    in  float e,\n    out int y,\n    src py \"s\",\n)\n\n"
                     "call S(\n    a = \"x\",\n    b = 1,\n    c = {},\n    d = [],\n    e = \"f\",\n)\n"))
+    # several errors of one kind at once: their order must not depend on map iteration
+    st = "stage S(\n    in  int x,\n    out int y,\n    src py \"s\",\n)\n\n"
+    out.append(prog("errors_deps",
+                    st + "pipeline P(\n    in  int x,\n    out int y,\n)\n{\n" +
+                    "".join("    call S as S%d(\n        x = N%d.y,\n    )\n\n" % (i, i) for i in range(6)) +
+                    "    return (\n        y = S0.y,\n    )\n}\n"))
+    out.append(prog("errors_cycle",
+                    st + "pipeline P(\n    in  int x,\n    out int y,\n)\n{\n" +
+                    "".join("    call S as S%d(\n        x = S%d.y,\n    )\n\n" % (i, (i + 1) % 5) for i in range(5)) +
+                    "    return (\n        y = S0.y,\n    )\n}\n"))
+    out.append(prog("errors_dupchunk",
+                    "stage S(\n    in  int a,\n    in  int b,\n    in  int c,\n    in  int d,\n    out int y,\n    src py \"s\",\n) split (\n"
+                    "    in  int d,\n    in  int b,\n    in  int a,\n    in  int c,\n    out int y,\n)\n"))
+    out.append(prog("errors_badkeys",
+                    "struct T(\n    int a,\n    int b,\n)\n\nstage S(\n    in  T t,\n    in  map<int> m,\n    in  T[] ts,\n    out int y,\n    src py \"s\",\n)\n\n"
+                    "call S(\n    t  = {\n        a: 1,\n        b: 2,\n        zz3: 3,\n        zz1: 1,\n        zz2: 2,\n        q: 0,\n    },\n"
+                    "    m  = {\n        \"k3\": \"x\",\n        \"k1\": \"y\",\n        \"k2\": [],\n        \"k0\": {},\n    },\n"
+                    "    ts = [\n        {\n            a: \"s\",\n            b: \"t\",\n        },\n        {\n            c: 1,\n            d: 2,\n            e: 3,\n        },\n    ],\n)\n"))
+    out.append(prog("errors_mapkeys",
+                    "stage A4(\n    in  int a,\n    in  int b,\n    in  int c,\n    out int y,\n    src py \"a\",\n)\n\npipeline TOP(\n    out map<int> ys,\n)\n{\n"
+                    "    map call A4(\n        a = split {\"p\": 1, \"q\": 2, \"r\": 3, \"s\": 4},\n        b = split {\"t\": 1, \"u\": 2, \"v\": 3, \"w\": 4},\n"
+                    "        c = split {\"x\": 1, \"y\": 2, \"z\": 3, \"p\": 4},\n    )\n\n    return (\n        ys = A4.y,\n    )\n}\n\ncall TOP(\n)\n"))
+    # references inside a map / struct literal feeding retained files
+    out.append(prog("retained_literal",
+                    "stage F(\n    in  int x,\n    out file f,\n    src py \"f\",\n)\n\nstage U(\n    in  map<file> fs,\n    out int n,\n    src py \"u\",\n)\n\n"
+                    "pipeline TOP(\n    in  int x,\n    out int n,\n    out map<file> all,\n)\n{\n" +
+                    "".join("    call F as F%d(\n        x = self.x,\n    )\n\n" % i for i in range(7)) +
+                    "    call U(\n        fs = {\n" + "".join("            \"k%d\": F%d.f,\n" % (i, i) for i in (4, 1, 6, 0, 3, 5, 2)) + "        },\n    )\n\n"
+                    "    return (\n        n   = U.n,\n        all = {\n" + "".join("            \"k%d\": F%d.f,\n" % (i, i) for i in (2, 5, 3, 0, 6, 1, 4)) + "        },\n    )\n\n"
+                    "    retain (\n" + "".join("        F%d.f,\n" % i for i in (5, 2, 4)) + "    )\n}\n\ncall TOP(\n    x = 1,\n)\n"))
+    # same-line map entries with comments
+    out.append(prog("sameline_comments",
+                    "stage S(\n    in  map x,\n    out int y,\n    src py \"s\",\n)\n\ncall S(\n    # about x\n    x = {\"a\": 1, \"b\": 2, \"c\": 3, \"d\": 4, \"e\": 5}, # trailing\n)\n"))
     return out
 
 
